@@ -1265,6 +1265,14 @@ Ltac stop_inv :=
          end.
 
 Ltac err_fin :=
+  repeat match goal with
+         | H : _ = true |- _ => clear H
+         | H : _ = false |- _ => clear H
+         | H : _ = Some _ |- _ => clear H
+         | H : _ = None |- _ => clear H
+         | H : _ = _ :: _ |- _ => clear H
+         | H : _ = [] |- _ => clear H
+         end;
   unfold err_rel in *;
   cbn [m_err set_stack set_vars set_inpos set_outs set_frames set_dos set_err set_targets set_ready fst snd] in *;
   cbv [E_none E_not_ready E_is_done E_user_halt E_recursion E_underflow E_overflow E_read_beyond E_seek_beyond
@@ -1413,3 +1421,116 @@ Proof.
   destruct (BOUND_DICTIONARY <=? bc); [eapply push_frame_err; eassumption|].
   destruct (bc =? CODE_EXIT); [eapply exec_exit_err; eassumption | eapply exec_builtin_err; eassumption].
 Qed.
+
+Lemma fetch_instr_err : forall p m r, fetch_instr p m = Ok r ->
+  match r with LoopEnd m' => err_rel m m' | Instr _ m0 => err_rel m m0 end.
+Proof.
+  intros p m r H. unfold fetch_instr in H. cbv zeta in H. break_all; stop_inv; err_fin.
+Qed.
+
+Lemma single_tail_err : forall fixed p t m fl m1, single_tail fixed p t m = Ok (fl, m1) -> err_rel m m1.
+Proof.
+  intros fixed p t m fl m1 H. unfold single_tail in H. break_all; stop_inv; err_chain.
+Qed.
+
+Lemma exec_instr_err : forall fixed single p e t m fl m1, exec_instr fixed single p e t m = Ok (fl, m1) -> err_rel m m1.
+Proof.
+  intros fixed single p e t m fl m1 H. unfold exec_instr in H.
+  destruct (fetch_instr p m) as [[m'|bc m0]|c|] eqn:Ef; try discriminate; apply fetch_instr_err in Ef.
+  - stop_inv. assumption.
+  - destruct (exec_op fixed single p e m0 bc) as [[[|] m2]|c|] eqn:Eo; try discriminate; apply exec_op_err in Eo.
+    + destruct single.
+      * destruct (bc =? CODE_EXIT).
+        -- inv H. eapply err_rel_trans; eassumption.
+        -- apply single_tail_err in H. eapply err_rel_trans; [eassumption|]. eapply err_rel_trans; eassumption.
+      * inv H. eapply err_rel_trans; eassumption.
+    + inv H. eapply err_rel_trans; eassumption.
+Qed.
+
+Lemma irun_err : forall f fixed single p e t m m1, internal_run f fixed single p e t m = Ok m1 -> err_rel m m1.
+Proof.
+  induction f as [|f IH]; intros fixed single p e t m m1 H; [discriminate|].
+  rewrite IR_S in H.
+  destruct (depth m =? t); [inv H; apply err_rel_refl|].
+  destruct (segment_done p m) as [[|]|c|]; try discriminate.
+  - destruct (pop_incr m) as [[[|] m2]|c|] eqn:Ep; try discriminate; apply pop_incr_err in Ep.
+    + apply IH in H. eapply err_rel_trans; eassumption.
+    + inv H. assumption.
+  - destruct (exec_instr fixed single p e t m) as [[[|] m2]|c|] eqn:Ee; try discriminate; apply exec_instr_err in Ee.
+    + apply IH in H. eapply err_rel_trans; eassumption.
+    + inv H. assumption.
+Qed.
+
+Definition doc_err (z : Z) : Prop := 0 <= z <= 12.      (* util::ForthError: none ... varint_too_big *)
+
+Lemma run_and_pop_err : forall f fixed single p e m m1, run_and_pop f fixed single p e m = Ok m1 -> err_rel m m1.
+Proof.
+  intros f fixed single p e m m1 H. unfold run_and_pop in H.
+  destruct (m_targets m) as [|t ts]; [discriminate|].
+  destruct (internal_run f fixed single p e t m) as [m2|c|] eqn:E; try discriminate. apply irun_err in E.
+  unfold pop_target in H. destruct (m_targets m2); [discriminate|]. inv H.
+  destruct (depth m2 =? z); assumption.
+Qed.
+
+(* the same observable state except, possibly, the error code *)
+Definition same_data (m m' : machine) : Prop :=
+  m_stack m' = m_stack m /\ m_vars m' = m_vars m /\ m_inpos m' = m_inpos m /\ m_outs m' = m_outs m /\
+  m_frames m' = m_frames m /\ m_dos m' = m_dos m /\ m_targets m' = m_targets m /\ m_ready m' = m_ready m.
+
+(* (b) run-time faults are reported as documented error codes and stop the machine until begin / reset.
+   PARTIAL: the remaining possible outcome `Fault k` (undefined behaviour of the C++) is not excluded here; which k
+   can arise from compiled programs (2 negative repeat count, 3 negative rewind, 4 INT_MIN / -1, 5/6 exit inside
+   a do-loop, 7 call at the recursion limit, 8 recursion limit < 1, 9 wide bit fields) is established by the
+   correspondence runs only. *)
+Theorem faults_are_errors_partial_proof :
+  (* every error code a step / resume / call can leave is one of the documented ones *)
+  (forall fixed p e m m', doc_err (m_err m) -> api_step fixed p e m = Ok m' -> doc_err (m_err m')) /\
+  (forall f fixed p e m m', doc_err (m_err m) -> api_resume f fixed p e m = Ok m' -> doc_err (m_err m')) /\
+  (forall f fixed p e m s m', doc_err (m_err m) -> api_call f fixed p e m s = Ok m' -> doc_err (m_err m')) /\
+  (* once an error is set nothing executes any more: stack, variables, inputs, outputs stay as they are *)
+  (forall fixed p e m m', m_err m <> E_none -> api_step fixed p e m = Ok m' -> same_data m m') /\
+  (forall f fixed p e m m', m_err m <> E_none -> api_resume f fixed p e m = Ok m' -> same_data m m') /\
+  (forall f fixed p e m s m', m_err m <> E_none -> api_call f fixed p e m s = Ok m' -> same_data m m') /\
+  (* reset clears the error; begin makes the machine runnable again *)
+  (forall p m, m_err (api_reset p m) = E_none /\ m_ready (api_reset p m) = false) /\
+  (forall p e m m', api_begin p e m = Ok m' -> can_go m' = true /\ m_stack m' = []).
+Proof.
+  assert (Hdoc : forall m m', doc_err (m_err m) -> err_rel m m' -> doc_err (m_err m')).
+  { unfold doc_err, err_rel. intros. lia. }
+  assert (Hsame : forall m, same_data m m) by (intro; repeat split).
+  assert (Hsame2 : forall m z, same_data m (set_err m z)) by (intros; repeat split).
+  split; [|split; [|split; [|split; [|split; [|split; [|split]]]]]].
+  - intros fixed p e m m' Hd H. unfold api_step in H.
+    destruct (negb (m_ready m)); [inv H; unfold doc_err; cbn; unfold E_not_ready; lia|].
+    destruct (m_targets m) eqn:Et; [inv H; unfold doc_err; cbn; unfold E_is_done; lia|].
+    destruct (negb (m_err m =? E_none)); [inv H; assumption|].
+    apply run_and_pop_err in H. eapply Hdoc; eassumption.
+  - intros f fixed p e m m' Hd H. unfold api_resume in H.
+    destruct (negb (m_ready m)); [inv H; unfold doc_err; cbn; unfold E_not_ready; lia|].
+    destruct (m_targets m) eqn:Et; [inv H; unfold doc_err; cbn; unfold E_is_done; lia|].
+    destruct (negb (m_err m =? E_none)); [inv H; assumption|].
+    apply run_and_pop_err in H. eapply Hdoc; eassumption.
+  - intros f fixed p e m s m' Hd H. unfold api_call in H.
+    destruct (negb (m_ready m)); [inv H; unfold doc_err; cbn; unfold E_not_ready; lia|].
+    destruct (negb (m_err m =? E_none)); [inv H; assumption|].
+    destruct (p_rec_max p <=? depth m); [discriminate|].
+    apply run_and_pop_err in H. eapply Hdoc; [|eassumption]. assumption.
+  - intros fixed p e m m' He H. unfold api_step in H.
+    destruct (negb (m_ready m)); [inv H; apply Hsame2|].
+    destruct (m_targets m) eqn:Et; [inv H; apply Hsame2|].
+    destruct (negb (m_err m =? E_none)) eqn:E0; [inv H; apply Hsame|]. unfold E_none in *. lia.
+  - intros f fixed p e m m' He H. unfold api_resume in H.
+    destruct (negb (m_ready m)); [inv H; apply Hsame2|].
+    destruct (m_targets m) eqn:Et; [inv H; apply Hsame2|].
+    destruct (negb (m_err m =? E_none)) eqn:E0; [inv H; apply Hsame|]. unfold E_none in *. lia.
+  - intros f fixed p e m s m' He H. unfold api_call in H.
+    destruct (negb (m_ready m)); [inv H; apply Hsame2|].
+    destruct (negb (m_err m =? E_none)) eqn:E0; [inv H; apply Hsame|]. unfold E_none in *. lia.
+  - intros p m. split; reflexivity.
+  - intros p e m m' H. unfold api_begin in H. destruct (p_rec_max p <? 1); [discriminate|]. inv H. split; reflexivity.
+Qed.
+
+(* (e) the model is a function: equal inputs give equal results (stated for completeness) *)
+Theorem deterministic_proof : forall fuel fixed p given segs r1 r2,
+  session fuel fixed p given segs = r1 -> session fuel fixed p given segs = r2 -> r1 = r2.
+Proof. intros. congruence. Qed.
